@@ -86,6 +86,8 @@ enum Op {
     JLast,
     Learn(Vec<Syllable>, String),
     Unlearn(Vec<Syllable>, String),
+    /// call every query function n times (C17); the editor must not change
+    Get(usize),
 }
 
 fn op_line(op: &Op) -> String {
@@ -109,6 +111,7 @@ fn op_line(op: &Op) -> String {
         Op::JLast => "jlast".into(),
         Op::Learn(k, t) => format!("learn {}|{}", key_str(k), cps(t)),
         Op::Unlearn(k, t) => format!("unlearn {}|{}", key_str(k), cps(t)),
+        Op::Get(n) => format!("get {}", n),
     }
 }
 
@@ -134,6 +137,7 @@ fn parse_op(l: &str) -> Op {
             Op::Opts(o)
         }
         "engine" => Op::Engine(rest[0].parse().unwrap()),
+        "get" => Op::Get(rest[0].parse().unwrap()),
         "clearsyl" => Op::ClearSyl,
         "jnext" => Op::JNext,
         "jprev" => Op::JPrev,
@@ -288,6 +292,124 @@ fn apply(ed: &mut Editor, op: &Op) -> String {
         Op::JLast => format!("{}", ed.jump_to_last_selection_point().is_ok() as u8),
         Op::Learn(k, t) => format!("{}", ed.learn_phrase(k, t).is_ok() as u8),
         Op::Unlearn(k, t) => format!("{}", ed.unlearn_phrase(k, t).is_ok() as u8),
+        Op::Get(_) => "-".into(),
+    }
+}
+
+// ---------------------------------------------------------------- C17: queries, reset twin
+
+thread_local! {
+    /// sparse observation: the O observation is made only by `get` ops (so that runs with and without
+    /// query calls both exist and both have to agree with the model, which ignores queries)
+    static SPARSE: std::cell::Cell<bool> = const { std::cell::Cell::new(false) };
+    /// after a reset (`clear`): a freshly built editor with the same configuration and user dictionary,
+    /// driven with the same ops from then on
+    static TWIN: std::cell::RefCell<Option<Editor>> = const { std::cell::RefCell::new(None) };
+    static CUR_SETUP: std::cell::RefCell<Option<CaseSetup>> = const { std::cell::RefCell::new(None) };
+    static CUR_ENGINE: std::cell::Cell<u8> = const { std::cell::Cell::new(1) };
+}
+
+fn begin_case(setup: &CaseSetup, sparse: bool) {
+    SPARSE.with(|c| c.set(sparse));
+    TWIN.with(|t| *t.borrow_mut() = None);
+    CUR_SETUP.with(|c| *c.borrow_mut() = Some(setup.clone()));
+    CUR_ENGINE.with(|c| c.set(1));
+}
+
+/// every public query function of the editor, rendered (C17: a repeated call returns an equal value)
+fn all_getters(ed: &mut Editor) -> String {
+    let r = catch(AssertUnwindSafe(|| {
+        let ivs: Vec<String> = ed.intervals().map(|i| format!("{}-{}:{}:{}", i.start, i.end, i.is_phrase as u8, cps(&i.str))).collect();
+        let o = opts_vec(&ed.editor_options());
+        format!(
+            "display={} commit={} notice={} cursor={} len={} empty={} entering={} selecting={} last={} syl={}/{}/{} symbols={} all={:?} page={:?} tp={:?} pg={:?} next={} prev={} opts={:?} ivs={}",
+            cps(&ed.display()),
+            cps(ed.display_commit()),
+            cps(ed.notification()),
+            ed.cursor(),
+            ed.len(),
+            ed.is_empty() as u8,
+            ed.is_entering() as u8,
+            ed.is_selecting() as u8,
+            behavior_str(ed.last_key_behavior()),
+            ed.entering_syllable() as u8,
+            ed.syllable_buffer().to_u16(),
+            cps(&ed.syllable_buffer_display()),
+            ed.symbols().len(),
+            ed.all_candidates().map(|c| c.iter().map(|x| cps(x)).collect::<Vec<_>>()).ok(),
+            ed.paginated_candidates().map(|c| c.len()).ok(),
+            ed.total_page().ok(),
+            ed.current_page_no().ok(),
+            ed.has_next_selection_point() as u8,
+            ed.has_prev_selection_point() as u8,
+            o,
+            ivs.join(",")
+        )
+    }));
+    let _ = take_conversion_log();
+    r.unwrap_or_else(|_| "PANIC".into())
+}
+
+/// what a reset context and its fresh twin must agree on (time stamps and the pending-flush counter excluded)
+fn twin_view(ed: &mut Editor) -> String {
+    let snap: String = ed.verif_snapshot().split_whitespace().filter(|f| !f.starts_with("dirty=")).collect::<Vec<_>>().join(" ");
+    let g = all_getters(ed);
+    let mut ents: Vec<String> = ed.user_dict().entries().map(|(k, p)| format!("{}|{}|{}", key_str(&k), cps(p.as_str()), p.freq())).collect();
+    ents.sort();
+    format!("{} || {} || {}", snap, g, ents.join(";"))
+}
+
+fn twin_after(ed: &mut Editor, op: &Op, out: &mut String) {
+    if let Op::Engine(k) = op {
+        CUR_ENGINE.with(|c| c.set(*k));
+    }
+    let had_twin = TWIN.with(|t| t.borrow().is_some());
+    if had_twin && !matches!(op, Op::Clear) {
+        let mut tw = TWIN.with(|t| t.borrow_mut().take()).unwrap();
+        let r = catch(AssertUnwindSafe(|| {
+            apply(&mut tw, op);
+        }));
+        let _ = take_conversion_log();
+        if r.is_err() {
+            let _ = writeln!(out, "T PANIC-IN-TWIN");
+            return;
+        }
+        let (a, b) = (twin_view(ed), twin_view(&mut tw));
+        if a == b {
+            let _ = writeln!(out, "T ok");
+            TWIN.with(|t| *t.borrow_mut() = Some(tw));
+        } else {
+            let _ = writeln!(out, "T MISMATCH reset={} fresh={}", a.replace(' ', "_"), b.replace(' ', "_"));
+        }
+    }
+    if matches!(op, Op::Clear) {
+        // fresh editor: same system dictionary and tables, the user dictionary as it is now, same options and engine
+        let setup = CUR_SETUP.with(|c| c.borrow().clone());
+        if let Some(mut setup) = setup {
+            setup.usr = ed
+                .user_dict()
+                .entries()
+                .map(|(k, p)| Entry { key: k, text: p.as_str().to_string(), freq: p.freq(), time: p.last_used().unwrap_or(0) })
+                .collect();
+            let scratch = std::env::temp_dir().join(format!("vharness-ed-twin-{}", std::process::id()));
+            let _ = std::fs::create_dir_all(&scratch);
+            let mut tw = build_editor(&setup, &scratch);
+            tw.set_editor_options(ed.editor_options());
+            match CUR_ENGINE.with(|c| c.get()) {
+                0 => tw.set_conversion_engine(Box::new(SimpleEngine::new())),
+                1 => tw.set_conversion_engine(Box::new(ChewingEngine::new())),
+                _ => tw.set_conversion_engine(Box::new(FuzzyChewingEngine::new())),
+            }
+            let _ = take_conversion_log();
+            let (a, b) = (twin_view(ed), twin_view(&mut tw));
+            if a == b {
+                let _ = writeln!(out, "T ok");
+                TWIN.with(|t| *t.borrow_mut() = Some(tw));
+            } else {
+                let _ = writeln!(out, "T MISMATCH reset={} fresh={}", a.replace(' ', "_"), b.replace(' ', "_"));
+                TWIN.with(|t| *t.borrow_mut() = None);
+            }
+        }
     }
 }
 
@@ -362,6 +484,9 @@ fn write_setup(n: usize, s: &CaseSetup, out: &mut String) {
             }
         }
     }
+    if SPARSE.with(|c| c.get()) {
+        let _ = writeln!(out, "MODE sparse");
+    }
     let _ = writeln!(out, "INIT {}", s.lifetime);
 }
 
@@ -381,8 +506,22 @@ fn step(ed: &mut Editor, op: &Op, out: &mut String) -> bool {
         Ok(res) => {
             let _ = writeln!(out, "R {}", res);
             let _ = writeln!(out, "S {}", ed.verif_snapshot());
-            observe(ed, out);
-            !out.ends_with("O PANIC\n")
+            twin_after(ed, op, out);
+            let nobs = match op {
+                Op::Get(n) => *n,
+                _ => (!SPARSE.with(|c| c.get())) as usize,
+            };
+            for _ in 0..nobs {
+                if let Op::Get(_) = op {
+                    let g = all_getters(ed);
+                    let _ = writeln!(out, "G {}", g);
+                }
+                observe(ed, out);
+                if out.ends_with("O PANIC\n") {
+                    return false;
+                }
+            }
+            true
         }
     }
 }
@@ -535,6 +674,8 @@ fn key_op(code: KeyCode, mods: Modifiers) -> Op {
 
 fn gen_case(rng: &mut Rng, n: usize, tier: &str, scratch: &std::path::Path, out: &mut String, stats: &mut Stats) {
     let (setup, world) = gen_setup(rng);
+    let sparse = rng.chance(1, 3);
+    begin_case(&setup, sparse);
     write_setup(n, &setup, out);
     let mut ed = build_editor(&setup, scratch);
     let max_ops = if tier == "thorough" { 40 + rng.below(160) } else { 20 + rng.below(50) } as usize;
@@ -561,10 +702,56 @@ fn gen_case(rng: &mut Rng, n: usize, tier: &str, scratch: &std::path::Path, out:
         let selecting = ed.is_selecting();
         let r = rng.below(100);
         let mut ops: Vec<Op> = vec![];
-        if rng.chance(1, 10) {
+        if rng.chance(if sparse { 3 } else { 1 }, 14) {
+            // query calls at a random position, once or repeated (C17)
+            ops.push(Op::Get(1 + rng.below(2) as usize));
+        } else if rng.chance(1, 10) {
             // ---- scenario productions: multi-step situations a uniform walk rarely reaches ----
             let digit = |rng: &mut Rng| key_op(ALL_CODES[1 + rng.below(3) as usize], none);
             match rng.below(if selecting { 5 } else { 2 }) {
+                _ if !selecting && rng.chance(1, 4) => {
+                    // a syllable is left without a word: (a) typed under the fuzzy lookup, then the engine
+                    // is switched back to the standard one; (b) its only word is a user word that is
+                    // removed after typing it.  Then the list is opened, cycled, a choice tried, committed.
+                    if rng.chance(1, 2) {
+                        ops.push(Op::Engine(2));
+                        let mut o = opts_vec(&ed.editor_options());
+                        o[12] = 2;
+                        o[11] = 1;
+                        ops.push(Op::Opts(o));
+                        for _ in 0..(2 + rng.below(2)) {
+                            let i = rng.below(world.syls.len() as u64) as usize;
+                            // the keys of the syllable without its last one (tone / space): a partial syllable
+                            let ks = &world.keys[i];
+                            for k in &ks[..ks.len().saturating_sub(1).max(1)] {
+                                ops.push(key_op(*k, none));
+                            }
+                        }
+                        let k = if rng.chance(2, 3) { 1 } else { 0 };
+                        ops.push(Op::Engine(k));
+                        o[12] = k as u32;
+                        o[11] = 0;
+                        ops.push(Op::Opts(o));
+                    } else {
+                        let i = rng.below(world.syls.len() as u64) as usize;
+                        let text: String = cjk(rng).to_string();
+                        ops.push(Op::Learn(vec![world.syls[i]], text.clone()));
+                        for k in &world.keys[i] {
+                            ops.push(key_op(*k, none));
+                        }
+                        ops.push(Op::Unlearn(vec![world.syls[i]], text));
+                    }
+                    for _ in 0..rng.below(3) {
+                        ops.push(key_op(*rng.pick(&[Left, Home, Right]), none));
+                    }
+                    ops.push(key_op(Down, none));
+                    for _ in 0..rng.below(3) {
+                        ops.push(key_op(*rng.pick(&[Down, Space, J, K]), none));
+                    }
+                    ops.push(digit(rng));
+                    ops.push(key_op(*rng.pick(&[Esc, Enter, Tab]), none));
+                    ops.push(key_op(Enter, none));
+                }
                 0 if world.chain.is_some() => {
                     // overlapping choices: type a b c d, choose at 0, at 2, then at 1
                     let c = world.chain.unwrap();
@@ -774,6 +961,14 @@ fn gen_case(rng: &mut Rng, n: usize, tier: &str, scratch: &std::path::Path, out:
             stats.max_len = stats.max_len.max(ed.len());
         }
     }
+    if sparse {
+        // the final state of a sparsely observed case is always looked at
+        stats.ops += 1;
+        if !step(&mut ed, &Op::Get(1), out) {
+            stats.panics += 1;
+            return;
+        }
+    }
     if states_seen.len() >= 2 && changes >= 2 {
         stats.nontrivial += 1;
     }
@@ -827,6 +1022,7 @@ fn run(case_file: &str, out_path: &str) -> i32 {
     let mut ed: Option<Editor> = None;
     let mut n = 0usize;
     let mut dead = false;
+    let mut sparse = false;
     for line in text.lines() {
         let (tag, rest) = line.split_once(' ').unwrap_or((line, ""));
         match tag {
@@ -835,6 +1031,7 @@ fn run(case_file: &str, out_path: &str) -> i32 {
                 setup = Some(CaseSetup { sys: vec![], usr: vec![], abbr: vec![], symsel: vec![], lifetime: 0 });
                 ed = None;
                 dead = false;
+                sparse = false;
             }
             "SYS" | "USR" => {
                 let f: Vec<&str> = rest.split('|').collect();
@@ -853,9 +1050,11 @@ fn run(case_file: &str, out_path: &str) -> i32 {
                     None => s.symsel.push((from_cps(rest), None)),
                 }
             }
+            "MODE" => sparse = rest.trim() == "sparse",
             "INIT" => {
                 let s = setup.as_mut().unwrap();
                 s.lifetime = rest.trim().parse().unwrap();
+                begin_case(s, sparse);
                 write_setup(n, s, &mut out);
                 ed = Some(build_editor(s, &scratch));
             }
